@@ -255,44 +255,23 @@ def r3_promotions(ctx):
 def r4_quiet_filter(ctx):
     rid = "C01.R4"
     ctx.rule(rid, "make_move drops a move exactly when it captures nothing, promotes to nothing and the quiet filter is on", floor=2)
-    prog = ctx.prog
-    try:
-        f, cfg, paths = c02.enumerate_generator(ctx, rid)
-    except (NotLoopFree, OverflowError) as e:
-        ctx.lost(rid, "make_move paths (%s)" % e)
+    from . import genmove_table as GT
+    from ..semtable import judge
+    tb = GT.table(ctx, rid)
+    if tb is None:
         return
-    NO_PIECE = prog.const_value("inkayaku_board::board::constants::NO_PIECE")
-    def atoms(pe):
-        a = b = c = None
-        for (d, cc, blk, ty) in pe.conds:
-            truth = cc != ("in", (0,))
-            if d == ("param", 3):
-                c = truth
-            elif d[0] == "bin" and d[1] == "Eq" and any(x[0] == "c" and x[1] == NO_PIECE for x in (d[2], d[3])):
-                other = d[3] if d[2][0] == "c" else d[2]
-                if other == ("param", 9):
-                    b = truth
-                elif other[0] == "call" and other[1].endswith("get_piece_const_by_square_shift"):
-                    a = truth
-        return a, b, c
-    n_drop = n_keep = 0
-    bad = []
-    for p, pe, colour in paths:
-        pushes = any(t[0] == "call" and t[1].endswith("Vec::push") for b, t in pe.calls)
-        a, b, c = atoms(pe)
-        # short-circuit: atoms not evaluated on the path are None; the path drops iff all three were evaluated true
-        drop_expected = (a is True and b is True and c is True)
-        if pushes == drop_expected:
-            bad.append((pushes, a, b, c))
-        if pushes:
-            n_keep += 1
-        else:
-            n_drop += 1
-    ok = not bad and n_drop >= 1 and n_keep >= 1
-    ctx.ob(rid, "drop-iff-quiet-and-filtered", ok,
-           "" if ok else "paths of make_move where (move pushed, captures nothing, promotes nothing, filter on) = %s contradict 'dropped iff all three'" % bad[:3] if bad else "no dropping or no keeping path found",
-           ctx.where(f), sample={"paths": len(paths), "dropping": n_drop, "keeping": n_keep})
-    ctx.ob(rid, "both-outcomes-exist", n_drop >= 2 and n_keep >= 2, "" if n_drop >= 2 and n_keep >= 2 else "dropping paths %d, keeping paths %d" % (n_drop, n_keep), ctx.where(f))
+    f, leaves, domains, c, home = tb
+    names = ["filter", "promote", "attacked"]
+    viol, und, n = judge(leaves, names, domains, GT.pushed, lambda e: not GT.dropped_expected(e, c))
+    ctx.ob(rid, "drop-iff-quiet-and-filtered", not viol,
+           "" if not viol else "make_move %s a move with %s (the move is dropped exactly when it captures nothing, promotes to nothing and the quiet filter is on)"
+           % ("pushes" if viol[0][1] else "drops", GT.describe(viol[0][0], c)),
+           ctx.where(f), sample={"leaves": len(leaves), "cases": n})
+    n_keep = len([lf for lf in leaves if GT.pushed(lf)])
+    n_drop = len(leaves) - n_keep
+    ctx.ob(rid, "both-outcomes-exist", n_drop >= 1 and n_keep >= 1, "" if n_drop >= 1 and n_keep >= 1 else "dropping paths %d, keeping paths %d" % (n_drop, n_keep), ctx.where(f))
+    for u in und[:1]:
+        ctx.lost(rid, "quiet filter under a condition the table cannot evaluate (%s)" % "; ".join(show(d) for d, cc in u[3].opaque)[:160])
 
 
 MIRROR_FNS = ("pawn_moves", "pawn_attacks", "make_move", "make", "unmake", "zobrist_xor", "_is_square_in_check", "_is_in_check_by_bits", "get_active_and_passive", "get_active_and_passive_mut")
